@@ -2170,10 +2170,12 @@ pub fn run(ctx: &mut Ctx) {
     loops_suite(ctx);
     formats_suite(ctx);
     super::c12_more::run(ctx);
+    super::c12_comp::run(ctx);
 }
 
 fn replay(ctx: &mut Ctx, case: &[String]) {
     if super::c12_more::replay(ctx, case) { return; }
+    if super::c12_comp::replay(ctx, case) { return; }
     match case.first().map(|s| s.as_str()) {
         Some("fmt") if case.len() >= 5 => {
             if let (Some(fmt), Ok(sub), Ok(kind), Ok(cap)) = (Fmt::parse(&case[1]), case[2].parse::<u64>(), case[3].parse::<usize>(), case[4].parse::<usize>()) {
